@@ -224,7 +224,7 @@ pub fn exec(sc: &Sc) -> Outcome {
 }
 
 pub fn scenarios(tier: Tier) -> Vec<Sc> {
-    let thorough = tier == Tier::Thorough;
+    let thorough = tier >= Tier::Thorough;
     let mut out = vec![];
     for client_opens in [true, false] {
         for (bidi, echo) in [(false, false), (true, false), (true, true)] {
